@@ -386,7 +386,7 @@ Proof.
   unfold tv_le. cbn [r_term r_vote]. change (r_term (r <| r_election_tick := 0 |> <| r_vote := m_from m |>)) with (r_term r).
   change (r_vote (r <| r_election_tick := 0 |> <| r_vote := m_from m |>)) with (m_from m).
   split; [lia|]. intros _ Hv.
-  unfold can_grant_vote in Eg.
+  unfold can_grant_vote, gen_canGrantVote in Eg.
   destruct (N.eqb_spec (r_vote r) 0); [contradiction|].
   destruct (N.eqb_spec (r_vote r) (m_from m)); [congruence|].
   destruct (N.ltb_spec (r_term r) (m_term m)); [lia|]. simpl in Eg. discriminate.
@@ -569,7 +569,7 @@ Proof.
   destruct (drop_request_vote_from_high_term r m) as [r0 drop]. simpl in H0.
   destruct drop; [apply tv_eq_le; exact H0|].
   destruct (N.ltb_spec (r_term r0) (m_term m)) as [Hlt|Hge].
-  - destruct (_ || _); [apply tv_eq_le; exact H0|]. cbv zeta.
+  - destruct (gen_isPreVoteMessageWithExpectedHigherTerm _ _); [apply tv_eq_le; exact H0|]. cbv zeta.
     assert (Hle : r_term r0 <= m_term m) by lia.
     destruct (is_nonvoting r0); [simpl; eapply tv_eq_le_trans; [exact H0|apply become_nonvoting_tv; exact Hle]|].
     destruct (is_witness r0); [simpl; eapply tv_eq_le_trans; [exact H0|apply become_witness_tv; exact Hle]|].
